@@ -1,0 +1,86 @@
+//go:build verif
+
+// Contracts for the deductive checks under /verif (comment-only; no code).
+
+package peering
+
+//@ func ext math/rand/v2.Int64N
+//@   requires[positive] n > 0
+//@   ensures 0 <= result && result < n
+
+// every timer this package arms must fire after a positive delay of at most maxBackoff (10 min)
+//@ func ext time.AfterFunc
+//@   requires[delay_range] 0 < d && d <= maxBackoff
+//@ func ext (*time.Timer).Reset
+//@   requires[delay_range] 0 < d && d <= maxBackoff
+//@ func ext (*time.Timer).Stop
+
+// monitor invariant of ph.mu over the back-off state
+//@ macro delayInv(ph) = initialDelay <= ph.nextDelay && ph.nextDelay <= maxBackoff
+
+// "reconnecting only while it should": once a handler has been stopped (its context
+// cancelled by stop()), no reconnect timer exists and none is armed again.
+//@ ghost cancelled(ctx context.Context) bool
+//@ macro stoppedInv(ph) = cancelled(ph.ctx) ==> ph.reconnectTimer == nil
+//@ func ext field:github.com/ipfs/boxo/peering.peerHandler.cancel
+//@   modifies cancelled(self.ctx)
+//@   ensures cancelled(self.ctx)
+//@ func iface context.Context.Err
+//@   ensures cancelled(self) ==> result != nil
+
+//@ func (*peerHandler).stop
+//@   prop C46
+//@   arith int
+//@   requires ph != nil
+//@   modifies ph.reconnectTimer, cancelled(ph.ctx)
+//@   ensures[stopped] cancelled(ph.ctx) && ph.reconnectTimer == nil
+
+//@ func (*peerHandler).nextBackoff
+//@   prop C46
+//@   arith int
+//@   safety div
+//@   requires ph != nil
+//@   requires[inv] delayInv(ph)
+//@   modifies ph.nextDelay
+//@   ensures[range] 0 < result && result <= maxBackoff
+//@   ensures[stored] result == ph.nextDelay
+//@   ensures[inv] delayInv(ph)
+//@   ensures[grows] result >= old(ph.nextDelay) || result > maxBackoff - maxBackoff / 10
+//@   ensures[jitter] old(ph.nextDelay) >= maxBackoff ==> result == maxBackoff
+//@   ensures[growth_bound] result <= old(ph.nextDelay) * 5 / 2
+
+//@ func (*peerHandler).stopIfConnected
+//@   prop C46
+//@   arith int
+//@   requires ph != nil
+//@   requires[inv] delayInv(ph)
+//@   requires[stopped_inv] stoppedInv(ph)
+//@   ensures[stopped_inv] stoppedInv(ph)
+//@   modifies ph.nextDelay, ph.reconnectTimer
+//@   ensures[inv] delayInv(ph)
+
+//@ func (*peerHandler).startIfDisconnected
+//@   prop C46
+//@   arith int
+//@   requires ph != nil
+//@   requires[inv] delayInv(ph)
+//@   requires[stopped_inv] stoppedInv(ph)
+//@   ensures[stopped_inv] stoppedInv(ph)
+//@   modifies ph.nextDelay, ph.reconnectTimer
+//@   ensures[inv] delayInv(ph)
+
+//@ func (*peerHandler).reconnect
+//@   prop C46
+//@   arith int
+//@   requires ph != nil
+//@   requires[inv] delayInv(ph)
+//@   requires[stopped_inv] stoppedInv(ph)
+//@   ensures[stopped_inv] stoppedInv(ph)
+//@   modifies ph.nextDelay, ph.reconnectTimer
+//@   ensures[inv] delayInv(ph)
+
+//@ func (*peerHandler).getAddrs
+//@   prop C46
+//@   arith int
+//@   requires ph != nil
+//@   ensures[addrs] result == ph.addrs
